@@ -64,22 +64,40 @@ func extractAead(fn *ssa.Function, method string) (*aeadParams, string) {
 			continue
 		}
 		for _, e := range elems {
-			srcs := flattenPhi(e)
 			hasNil := false
-			for _, src := range srcs {
-				if core.IsNilConst(src) {
-					hasNil = true
-					continue
-				}
-				if oc, _ := core.CallResult(src); oc != nil && core.CalleeName(oc.Common()) == pk+".WithAad" {
-					ap.aadVal = core.Strip(oc.Call.Args[0])
-					// guarded by keyId != ""
-					g := strEmptyGuard("keyId", func(pp core.Path) bool { return pp.Root == ap.keyId && len(pp.Fields) == 0 })
-					inv := core.Guard{Name: "keyId != \"\"", Match: func(cond ssa.Value) (int, bool) { s, ok := g.Match(cond); return 1 - s, ok }}
-					res := core.CutReach(nil2(fn), fn, inv, oc.Block())
-					ap.aadGuarded = !res.Reachable && len(res.Instances) > 0
+			var visit func(v ssa.Value, in *ssa.Function, depth int)
+			visit = func(v ssa.Value, in *ssa.Function, depth int) {
+				for _, src := range flattenPhi(v) {
+					if core.IsNilConst(src) {
+						hasNil = true
+						continue
+					}
+					oc, _ := core.CallResult(src)
+					if oc == nil {
+						continue
+					}
+					if core.CalleeName(oc.Common()) == pk+".WithAad" {
+						ap.aadVal = core.Strip(oc.Call.Args[0])
+						// guarded by keyId != ""
+						g := strEmptyGuard("keyId", func(pp core.Path) bool { return pp.Root == ap.keyId && len(pp.Fields) == 0 })
+						inv := core.Guard{Name: "keyId != \"\"", Match: func(cond ssa.Value) (int, bool) { s, ok := g.Match(cond); return 1 - s, ok }}
+						res := core.CutReach(nil2(in), in, inv, oc.Block())
+						ap.aadGuarded = !res.Reachable && len(res.Instances) > 0
+						continue
+					}
+					// a helper that builds the option: its parameters stand for the arguments
+					if h := core.ModuleCallee(oc.Common()); h != nil && depth < core.MaxSummaryDepth {
+						core.WithSubst(core.FrameSubst(oc.Common(), h), func() {
+							for _, ret := range core.Returns(h) {
+								if len(ret.Results) == 1 {
+									visit(core.ReturnOperand(ret, 0), h, depth+1)
+								}
+							}
+						})
+					}
 				}
 			}
+			visit(e, fn, 0)
 			if !hasNil && ap.aadVal != nil {
 				ap.aadAlways = true
 			}
